@@ -327,14 +327,14 @@ func pathCase(r *rng.R, i int, o *out.W, cp gen.CPath, m canvas.Matrix, mfam str
 				}
 				if bad {
 					desc["non_finite_arc"] = fmt.Sprint(all)
-					segs = append(segs, "SX")
+					segs = append(segs, fmt.Sprintf("SD %s %s %s %s", cq.F(g.Rx), cq.F(g.Ry), cq.Q(g.CsN, g.H), cq.Q(g.SnN, g.H)))
 					continue
 				}
 				segs = append(segs, fmt.Sprintf("SA (mkGA %s %s %s %s %s %s %s %s %s %s %s %s %s %s %s %s %s %s %s %s)",
 					cq.Pt(g.Cx, g.Cy), cq.F(g.Rx), cq.F(g.Ry), cq.Q(g.CsN, g.H), cq.Q(g.SnN, g.H), cq.Pt(g.Sx, g.Sy), cq.Pt(g.Ex, g.Ey), cq.Bool(g.Large), cq.Bool(g.Sweep),
 					cq.Pt(cgx, cgy),
 					cq.F(b.A[0]), cq.F(b.A[1]), cq.F(ocs), cq.F(osn), cq.Pt(b.X0, b.Y0), cq.Pt(b.X, b.Y), cq.Bool(ol), cq.Bool(os),
-					cq.Pt(ocx, ocy), samples(r, 10)))
+					cq.Pt(ocx, ocy), samples(r, 8)))
 			}
 		}
 	} else {
